@@ -847,7 +847,20 @@ func layer5(t *testing.T, r *vp.Recorder) {
 						panic(err)
 					}
 					defer func() {
-						rc.Close()
+						// Close on a goroutine of its own: if it blocks, the rest
+						// is still shut down, so that the bubble can end (and
+						// report the goroutine left behind) instead of spinning
+						// on gossipsub's timers
+						closed := make(chan struct{})
+						go func() { rc.Close(); close(closed) }()
+						synctest.Wait()
+						select {
+						case <-closed:
+						default:
+							if bad == "" {
+								bad, cls = "Receiver.Close blocks at the end of the sequence", "close-blocks"
+							}
+						}
 						sender.Close()
 						topic.Close()
 						psCancel()
@@ -874,6 +887,12 @@ func layer5(t *testing.T, r *vp.Recorder) {
 						}
 					}
 					step := func(what string, c cid.Cid, want bool) bool {
+						// a receiver with a topic can be asked for its name at any
+						// time; that changes nothing
+						if tn := rc.TopicName(); tn != "/indexer/ingest/c09-send" {
+							bad, cls = fmt.Sprintf("%s: TopicName() = %q", what, tn), "topic-name"
+							return false
+						}
 						if err := announce.Send(context.Background(), c, addrs, sender, nil); err != nil {
 							bad, cls = fmt.Sprintf("%s: announce.Send(%s) failed: %v", what, c, err), "send-error"
 							return false
